@@ -507,3 +507,59 @@ Proof.
   destruct H as [E Hn]. split; [assumption|]. destruct (is_total h) eqn:Et; [|reflexivity].
   exfalso. apply Hn. now apply is_total_sound.
 Qed.
+
+(* ---------- nested use_first = use_first of the leaves in order ---------- *)
+Fixpoint leaves (h : heur) : list heur :=
+  match h with
+  | UseFirst hs => flat_map leaves hs
+  | _ => [h]
+  end.
+
+Lemma suggest_usefirst_app a : forall b f t,
+  suggest (UseFirst (a ++ b)) f t =
+  match suggest (UseFirst a) f t with Ok None => suggest (UseFirst b) f t | o => o end.
+Proof.
+  induction a as [|h a IH]; intros b f t; [reflexivity|].
+  change ((h :: a) ++ b) with (h :: (a ++ b)). rewrite !suggest_usefirst_cons, IH.
+  destruct (suggest h f t) as [[ins|]| | |]; reflexivity.
+Qed.
+
+Lemma suggest_single h f t : suggest (UseFirst [h]) f t = suggest h f t.
+Proof. rewrite suggest_usefirst_cons, suggest_usefirst_nil. destruct (suggest h f t) as [[ins|]| | |]; reflexivity. Qed.
+
+Lemma usefirst_cons_leaves x r f t :
+  suggest x f t = suggest (UseFirst (leaves x)) f t ->
+  suggest (UseFirst r) f t = suggest (UseFirst (flat_map leaves r)) f t ->
+  suggest (UseFirst (x :: r)) f t = suggest (UseFirst (flat_map leaves (x :: r))) f t.
+Proof.
+  intros Hx Hr. cbn [flat_map]. rewrite suggest_usefirst_app, suggest_usefirst_cons, <- Hx, <- Hr. reflexivity.
+Qed.
+
+Fixpoint suggest_leaves (h : heur) : forall f t, suggest h f t = suggest (UseFirst (leaves h)) f t :=
+  match h return forall f t, suggest h f t = suggest (UseFirst (leaves h)) f t with
+  | Halving => fun f t => eq_sym (suggest_single Halving f t)
+  | DeltaLargest => fun f t => eq_sym (suggest_single DeltaLargest f t)
+  | Approximation => fun f t => eq_sym (suggest_single Approximation f t)
+  | UseFirst hs => fun f t =>
+      (fix go (l : list heur) : suggest (UseFirst l) f t = suggest (UseFirst (flat_map leaves l)) f t :=
+         match l return suggest (UseFirst l) f t = suggest (UseFirst (flat_map leaves l)) f t with
+         | [] => eq_refl
+         | x :: r => usefirst_cons_leaves x r f t (suggest_leaves x f t) (go r)
+         end) hs
+  end.
+
+(* so a nested composition and its spliced form give the same FindSequence *)
+Lemma loop_body_ext h h' : (forall f t, suggest h f t = suggest h' f t) ->
+  forall rec proto c, loop_body h rec proto c = loop_body h' rec proto c.
+Proof. intros E rec proto c. unfold loop_body. rewrite E. reflexivity. Qed.
+
+Theorem find_sequence_flatten h fuel ts :
+  find_sequence h fuel ts = find_sequence (UseFirst (leaves h)) fuel ts.
+Proof.
+  unfold find_sequence. destruct (is_just_one ts); [reflexivity|].
+  generalize (init_proto ts) (@nil Z). induction fuel as [|n IH]; intros proto c; [reflexivity|].
+  cbn [loop]. rewrite (loop_body_ext h (UseFirst (leaves h)) (suggest_leaves h)).
+  unfold loop_body. destruct (length proto <=? 2)%nat; [reflexivity|].
+  destruct (suggest (UseFirst (leaves h)) (removelast proto) (last proto 0)) as [[ins|]| | |]; try reflexivity.
+  apply IH.
+Qed.
